@@ -57,18 +57,22 @@ func (node *tagIncludeNode) Execute(ctx *ExecutionContext, writer TemplateWriter
 			}
 			return err2.(*Error)
 		}
-		err2 = includedTpl.executeNested(ctx, includeCtx, writer)
-		if err2 != nil {
-			return err2.(*Error)
-		}
-		return nil
+		return includeError(ctx, includedTpl.executeNested(ctx, includeCtx, writer))
 	}
 	// Template is already parsed with static filename
-	err := node.tpl.executeNested(ctx, includeCtx, writer)
-	if err != nil {
-		return err.(*Error)
+	return includeError(ctx, node.tpl.executeNested(ctx, includeCtx, writer))
+}
+
+// includeError converts the error of a nested execution. It is not necessarily
+// an *Error (the writer the output is copied to can fail as well).
+func includeError(ctx *ExecutionContext, err error) *Error {
+	if err == nil {
+		return nil
 	}
-	return nil
+	if pongoErr, ok := err.(*Error); ok {
+		return pongoErr
+	}
+	return ctx.OrigError(err, nil)
 }
 
 type tagIncludeEmptyNode struct{}
